@@ -1,0 +1,19 @@
+//go:build verif
+// +build verif
+
+package mod_static
+
+import (
+	"github.com/bfenetworks/bfe/bfe_basic"
+	"github.com/bfenetworks/bfe/bfe_http"
+)
+
+// VerifServe runs createRespFromStaticFile of a fresh module (EnableCompress as given) for a BROWSE rule
+// with document root `root` and default file `defaultFile`.  For the out-of-tree verification harness.
+func VerifServe(enableCompress bool, root, defaultFile string, req *bfe_basic.Request) *bfe_http.Response {
+	m := NewModuleStatic()
+	m.conf = &ConfModStatic{}
+	m.conf.Basic.EnableCompress = enableCompress
+	rule := &StaticRule{Action: Action{Cmd: ActionBrowse, Params: []string{root, defaultFile}}}
+	return m.createRespFromStaticFile(req, rule)
+}
